@@ -34,7 +34,7 @@ Case ==
      IN bad' = bad
           \cup Flag(~e.panic, "Panic")
           \cup Flag(~e.stepbound, "RunawayLoop")
-          \cup Flag(\A i \in 1 .. 6 : e.maxq[i] <= QueueCaps[i], "QueueGrewBeyondCap")
+          \cup Flag(\A i \in 1 .. 7 : e.maxq[i] <= QueueCaps[i], "QueueGrewBeyondCap")
           \* a single targeted frame: predicted outcome = observed outcome
           \cup Flag((exp >= 0 /\ e.applied) => Observed = exp, "OutcomeDiffersFromTable")
           \cup Flag((exp > 0 /\ e.applied) => e.closev = exp, "CloseCodeOnWireDiffers")
